@@ -1017,11 +1017,13 @@ def sort(a):
 
 
 def exp(a):
-    return _map(a, lambda v: symx.engine().exp(v), 'f')
+    from . import libstubs
+    return libstubs.sym_exp(a)
 
 
 def log(a):
-    return _map(a, lambda v: symx.engine().log(v), 'f')
+    from . import libstubs
+    return libstubs.sym_log(a)
 
 
 def sqrt(a):
